@@ -22,7 +22,7 @@ pub mod types;
 
 use types::*;
 
-pub const MAXN: usize = 6;
+pub const MAXN: usize = 8;
 pub const NONE: usize = usize::MAX;
 
 #[macro_export]
